@@ -22,6 +22,80 @@ def concretise(model_cases):
     return out
 
 
+# hand-written decoders: (model name of the registry, well-formed value, [(label, value leading back to object 10)])
+HAND_SELF = [
+    ("Font", "<< /Type /Font /Subtype /Type1 /BaseFont /Helvetica >>",
+     [("Encoding", "<< /Type /Font /Subtype /Type1 /BaseFont /Helvetica /Encoding 10 0 R >>"),
+      ("ToUnicode", "<< /Type /Font /Subtype /Type1 /BaseFont /Helvetica /ToUnicode 10 0 R >>"),
+      ("FontDescriptor", "<< /Type /Font /Subtype /Type1 /BaseFont /Helvetica /FontDescriptor 10 0 R >>"),
+      ("Widths", "<< /Type /Font /Subtype /Type1 /BaseFont /Helvetica /FirstChar 0 /LastChar 0 /Widths 10 0 R >>"),
+      ("DescendantFonts", "<< /Type /Font /Subtype /Type0 /BaseFont /A /Encoding /Identity-H /DescendantFonts 10 0 R >>"),
+      ("DescendantFonts[]", "<< /Type /Font /Subtype /Type0 /BaseFont /A /Encoding /Identity-H /DescendantFonts [10 0 R] >>"),
+      ("CIDToGIDMap", "<< /Type /Font /Subtype /CIDFontType2 /BaseFont /A /CIDSystemInfo << /Registry (A) /Ordering (I) /Supplement 0 >> /CIDToGIDMap 10 0 R >>"),
+      ("W", "<< /Type /Font /Subtype /CIDFontType2 /BaseFont /A /CIDSystemInfo << /Registry (A) /Ordering (I) /Supplement 0 >> /W 10 0 R >>"),
+      ("W[]", "<< /Type /Font /Subtype /CIDFontType2 /BaseFont /A /CIDSystemInfo << /Registry (A) /Ordering (I) /Supplement 0 >> /W [1 10 0 R] >>")]),
+    ("Encoding", "<< /Type /Encoding /BaseEncoding /WinAnsiEncoding >>",
+     [("BaseEncoding", "<< /Type /Encoding /BaseEncoding 10 0 R >>"), ("Differences", "<< /Type /Encoding /Differences 10 0 R >>"),
+      ("Differences[]", "<< /Type /Encoding /Differences [1 10 0 R] >>")]),
+    ("ColorSpace", "/DeviceGray",
+     [("ICCBased", "[/ICCBased 10 0 R]"), ("Indexed.base", "[/Indexed 10 0 R 1 <0000>]"), ("Indexed.lookup", "[/Indexed /DeviceGray 1 10 0 R]"),
+      ("Separation.alt", "[/Separation /A 10 0 R << /FunctionType 2 /Domain [0 1] /N 1 >>]"), ("Separation.tint", "[/Separation /A /DeviceGray 10 0 R]"),
+      ("DeviceN.names", "[/DeviceN 10 0 R /DeviceGray << /FunctionType 2 /Domain [0 1] /N 1 >>]"), ("DeviceN.attr", "[/DeviceN [/A] /DeviceGray << /FunctionType 2 /Domain [0 1] /N 1 >> 10 0 R]"),
+      ("Pattern", "[/Pattern 10 0 R]"), ("CalRGB", "[/CalRGB 10 0 R]"), ("Lab", "[/Lab 10 0 R]")]),
+    ("Dest", "[3 0 R /Fit]", [("page", "[10 0 R /Fit]"), ("whole", "10 0 R"), ("XYZ", "[3 0 R /XYZ 10 0 R 10 0 R 10 0 R]")]),
+    ("MaybeNamedDest", "[3 0 R /Fit]", [("whole", "10 0 R"), ("D", "<< /D 10 0 R >>")]),
+    ("Action", "<< /S /GoTo /D [3 0 R /Fit] >>", [("D", "<< /S /GoTo /D 10 0 R >>"), ("S", "<< /S 10 0 R >>"), ("Next", "<< /S /GoTo /D [3 0 R /Fit] /Next 10 0 R >>")]),
+    ("Rectangle", "[0 0 1 1]", [("element", "[0 0 1 10 0 R]"), ("whole", "10 0 R")]),
+    ("Matrix", "[1 0 0 1 0 0]", [("element", "[1 0 0 1 0 10 0 R]"), ("whole", "10 0 R")]),
+    ("Date", "(D:20200101000000Z)", [("whole", "10 0 R")]),
+    ("CidToGidMap", "/Identity", [("whole", "10 0 R")]),
+]
+
+
+def typed_cases(assignments):
+    """the fragment `typedfield` instantiated for every keyed entry of every typed model (and the hand-written decoders):
+    object 10 and 11 are values of the model whose entry refers to F10 / F11 (10, 11, or 12 = a well-formed value without
+    the entry), as a direct entry, an array element and a dictionary value"""
+    import re
+    from lib import models
+    ms = models.extract()
+    by = {m["name"]: m for m in ms}
+    # assignments that differ as seen from object 10
+    assigns = sorted({(a["F10"], a["F11"] if a["F10"] == 11 else 12) for a in assignments})
+    out = []
+
+    def add(model, label, a, make):
+        """make(target) -> text of an object whose entry refers to `target`; make(None) -> the well-formed value"""
+        objs = {1: b"<< /Type /Catalog /Pages 2 0 R >>", 2: b"<< /Type /Pages /Kids [3 0 R] /Count 1 >>",
+                3: b"<< /Type /Page /Parent 2 0 R /MediaBox [0 0 10 10] /Contents 4 0 R /Resources << >> >>", 4: S._stream_body("<< >>", S.CONTENT),
+                10: make(a[0]).encode("latin-1"), 11: make(a[1]).encode("latin-1"), 12: make(None).encode("latin-1")}
+        for k, t in models.AUX.items():
+            objs[k] = t.encode()
+        b = S._write_table(objs, "")
+        out.append({"id": len(out), "cls": "typedfield:%s[%s|F10=%d,F11=%d]" % (model, label, a[0], a[1]), "hex": b.hex(), "frag": "typedfield", "typed": [[model, 10]]})
+
+    for m in ms:
+        base = models.minimal(m, by)
+        if base is False:
+            continue
+        for f in m["fields"]:
+            if f["other"] or f["skip"] or f["key"] is None:
+                continue
+            body = re.sub(r"/%s (\[[^\]]*\]|<<.*?>>|\([^)]*\)|\S+( 0 R)?)" % re.escape(f["key"]), "", base[2:-2], count=1).strip()
+            for label, shape in (("entry", "%d 0 R"), ("element", "[%d 0 R]"), ("value", "<< /E %d 0 R >>")):
+                def make(t, body=body, key=f["key"], shape=shape, base=base):
+                    return base if t is None else "<< %s /%s %s >>" % (body, key, shape % t)
+                for a in assigns:
+                    add(m["name"], "%s:%s" % (f["key"], label), a, make)
+    for model, good, variants in HAND_SELF:
+        for label, val in variants:
+            def make(t, val=val, good=good):
+                return good if t is None else val.replace("10 0 R", "%d 0 R" % t)
+            for a in assigns:
+                add(model, label, a, make)
+    return out
+
+
 def judge(v, concrete, results, deaths, expect):
     """expect: sig -> set of model results for tree-walk fragments"""
     n_nontrivial = 0
@@ -85,7 +159,11 @@ def run(tier, seed):
     frs = sorted({c["frag"] for c in model_cases})
     if frs != sorted(S.ORDER):
         raise vlib.ToolError("fragment table of the model and of the replay differ")
-    concrete = concretise(model_cases)
+    typed = typed_cases([c["refs"] for c in model_cases if c["frag"] == "typedfield"])
+    concrete = concretise([c for c in model_cases if c["frag"] != "typedfield"])
+    for c in typed:
+        c["id"] += len(concrete)
+    concrete += typed
     results, deaths = walk.run(PID, "walk", concrete, shards=14, secs=10, extra=("--detail",))
     if len(results) + len(deaths) != len(concrete):
         raise vlib.ToolError("replay lost cases: %d results + %d deaths != %d" % (len(results), len(deaths), len(concrete)))
